@@ -20,6 +20,13 @@ R02.6 "every AAD length": the GHASH length block carries len(A) and len(C) as 64
       (movd / vmovd from a 32-bit sub-register, 32-bit mov) takes a value loaded from ctx->aad_length or
       ctx->in_length, or derived from the aad_len / len arguments, into a vector register in any body that
       builds the length block (one-shot and finalize).
+R02.7 GHASH schedule of the one-shot bodies (lib/ghash.py, the monomial interpretation described under C07 R07.5):
+      for every one-shot body, AAD lengths {12, 20, 48} x a set of data lengths that exercises every aggregation
+      depth (and AAD lengths 1..130 with short data), the 16 bytes written through auth_tag must contain block j of
+      the m AAD blocks times H^(m-j+n+1), block i of the n data blocks (the last one padded) times H^(n-i+1), and
+      the length block times H.  The key table is what the same family's precomp body stores.
+R02.8 AAD schedule of init: ctx->aad_hash after init contains AAD block j times H^(m-j) for every AAD length 1..200
+      (thorough: 1..1100).
 R02.3 instance floor: the four families are all offered by every GCM dispatcher of the one-shot / update /
       finalize interfaces; 96 bodies carry the argument list of aes/aes_gcm.c.
 """
@@ -30,6 +37,8 @@ import align
 import build
 import c19
 import cands
+import ghash
+import re
 import inplace
 import ir
 import par
@@ -60,6 +69,73 @@ def flat_roots(v):
     return flat
 
 
+BIG = (5, 7, 8, 9, 12, 15, 16, 17, 24, 31, 32, 33, 40, 47, 48, 49, 50, 64, 65)
+
+
+def gh_rules(lib, key, name, sig, extra, out, add):
+    fields = extra["ctx_fields"]
+    thorough = extra.get("tier") == "thorough"
+    m1 = re.match(r"^_aes_gcm_(enc|dec)_(128|256)_(sse|avx_gen2|avx_gen4|vaes_avx512)(_nt)?$", name)
+    m2 = re.match(r"^_aes_gcm_init_(128|256)_(sse|avx_gen2|avx_gen4|vaes_avx512)$", name)
+    if not (m1 or m2) or not fields:
+        return
+    bits_, fam = (m1.group(2), m1.group(3)) if m1 else (m2.group(1), m2.group(2))
+    keymem, pre_name = ghash.precomp_keymem(lib, bits_, fam)
+    if keymem is None:
+        out["broken"].append("%s: the precomp body %s could not be interpreted (no H in the key table)" % (name, pre_name))
+        return
+    f = lib.func(key)
+    cases = []
+    if m1:
+        data = (list(range(1, 1150)) if thorough else list(range(1, 81)) + [16 * k + r for k in BIG for r in (0, 1, 15)])
+        for A_ in (12, 20, 48):
+            cases += [(A_, L) for L in data]
+        cases += [(A_, L) for A_ in range(1, 131 if not thorough else 600) for L in (5, 16)]
+    else:
+        cases = [(A_, None) for A_ in range(1, 1100 if thorough else 200)]
+    judged = notj = 0
+    why = None
+    bad = None
+    for (A_, L) in cases:
+        mch = ghash.run_case(lib, f, sig, fields, keymem, L=L, aad_len=A_)
+        rr = mch.result
+        if rr.stopped or not rr.returned or not mch.finals:
+            notj += 1
+            why = why or rr.stopped or "no return reached"
+            continue
+        judged += 1
+        if bad:
+            continue
+        m_ = (A_ + 15) // 16
+        for fin in mch.finals:
+            if m1:
+                n = (L + 15) // 16
+                got = ghash.collect(fin, "auth_tag")
+                want = [(("AAD", j), m_ - j + n + 1) for j in range(m_)] + [(("D", k), n - k + 1) for k in range(n)] + [("L", 1)]
+                where = "the tag"
+            else:
+                got = ghash.collect(fin, "context_data", fields["aad_hash"][0], fields["aad_hash"][0] + 16)
+                want = [(("AAD", j), m_ - j) for j in range(m_)]
+                where = "ctx->aad_hash"
+            miss = ghash.first_missing(got, want)
+            if miss:
+                w, have = miss
+                bad = (A_, L, "%s must reach %s multiplied by H^%d; on this path it arrives %s" % (ghash.describe(w[0]), where, w[1], ("multiplied by H^" + ", H^".join(map(str, have))) if have else "not at all"))
+                break
+    kind = "oneshot" if m1 else "init"
+    out["gh_judged"] = out.get("gh_judged", 0) + judged
+    out["gh_notjudged"] = out.get("gh_notjudged", 0) + notj
+    out["gh_" + kind] = out.get("gh_" + kind, 0) + 1
+    if notj and len(out.setdefault("gh_why", [])) < 3:
+        out["gh_why"].append("%s: %s" % (name, why))
+    if judged == 0:
+        out["broken"].append("%s: no run of the GHASH interpretation could be followed (%s)" % (name, why))
+    if bad:
+        add("R02.7" if m1 else "R02.8", name, "ghash:aad=%d,len=%s" % (bad[0], bad[1]), ("with aad_len = %d and len = %d: " % (bad[0], bad[1]) if m1 else "with aad_len = %d: " % bad[0]) + bad[2], f.entry, key[1])
+    else:
+        out["gh_ok_" + kind] = out.get("gh_ok_" + kind, 0) + 1
+
+
 def worker(lib, objname, extra):
     cand = extra["cand"]
     o = lib.by_name[objname]
@@ -77,6 +153,7 @@ def worker(lib, objname, extra):
         for b in p1.broken:
             out["broken"].append("%s::%s %s" % (objname, name, b))
         out["bodies"] += 1
+        gh_rules(lib, key, name, sig, extra, out, add)
         names = {(s[0] if s else None): argloc(k) for k, s in enumerate(sig)}
         nt = name.endswith("_nt")
         free = {}
@@ -255,14 +332,17 @@ def run(chk):
             ctx_fields = {m["name"]: (m["off"], m["size"]) for m in ds["members"]}
     if not ctx_fields or "aad_length" not in ctx_fields or "in_length" not in ctx_fields:
         chk.broke("struct isal_gcm_context_data not found in DWARF")
-    res = par.map_objects(lib, worker, objs, extra={"cand": cand, "ctx_fields": ctx_fields})
+    res = par.map_objects(lib, worker, objs, extra={"cand": cand, "ctx_fields": ctx_fields, "tier": chk.tier})
     tot = collections.Counter()
     for objname in sorted(res):
         r = res[objname]
         for k in ("bodies", "sinks", "buf_acc", "tag_bodies", "tag_cases", "tag_ok", "align_ok"):
             tot[k] += r[k]
-        for k in ("ip_bodies", "ip_pairs", "ip_ok", "lenblk_bodies", "lenblk_moves", "lenblk_ok"):
+        for k in ("ip_bodies", "ip_pairs", "ip_ok", "lenblk_bodies", "lenblk_moves", "lenblk_ok", "gh_judged", "gh_notjudged", "gh_oneshot", "gh_init", "gh_ok_oneshot", "gh_ok_init"):
             tot[k] += r.get(k, 0)
+        for w_ in r.get("gh_why", []):
+            if len(chk.notes) < 6:
+                chk.notes.append("GHASH interpretation not followed: " + w_)
         for b in r["broken"]:
             chk.broke(b)
         for fd in r["findings"]:
@@ -274,6 +354,12 @@ def run(chk):
     chk.obligations["R02.2"] = [tot["tag_cases"], tot["tag_ok"]]
     chk.obligations["R02.5"] = [tot["ip_bodies"], tot["ip_ok"]]
     chk.obligations["R02.6"] = [tot["lenblk_bodies"], tot["lenblk_ok"]]
+    chk.obligations["R02.7"] = [tot["gh_oneshot"], tot["gh_ok_oneshot"]]
+    chk.obligations["R02.8"] = [tot["gh_init"], tot["gh_ok_init"]]
+    chk.floor("one-shot bodies interpreted for the GHASH schedule", tot["gh_oneshot"], 32)
+    chk.floor("init bodies interpreted for the AAD schedule", tot["gh_init"], 8)
+    chk.floor("GHASH-schedule runs followed to a return", tot["gh_judged"], 15000)
+    chk.extra["ghash_runs"] = {"followed": tot["gh_judged"], "not_followed": tot["gh_notjudged"]}
     chk.floor("bodies that build the GHASH length block", tot["lenblk_bodies"], 16)
     chk.floor("GPR-to-vector moves of the carried lengths seen", tot["lenblk_moves"], 24)
     chk.floor("bodies analysed for in-place hazards", tot["ip_bodies"], 64)
